@@ -9,6 +9,8 @@ import (
 
 	"github.com/ccbrown/api-fu/graphql/ast"
 	"github.com/ccbrown/api-fu/graphql/schema"
+
+	"verifharness/hx"
 )
 
 // ev is the Go value of an enum value (a comparable struct, deliberately not a string or int so
@@ -29,6 +31,8 @@ type built struct {
 	types map[string]schema.NamedType
 	dirs  map[string]*schema.DirectiveDefinition
 	tied  int // how often the model's registries / acceptance were compared for this build
+	// defSexp caches the extraction of def for the model
+	defSexp *hx.Sexp
 }
 
 func customScalar(name, desc string) *schema.ScalarType {
